@@ -18,6 +18,7 @@ import (
 	"fmt"
 	"math/bits"
 	"runtime"
+	"runtime/debug"
 	"strings"
 	"sync"
 	"testing"
@@ -105,7 +106,7 @@ func vfC42IClass(n int) int {
 }
 
 type vfC42IOp struct {
-	Kind    int // 0 get, 1 mutate, 2 put, 3 gc / yield
+	Kind    int // 0 get, 1 mutate, 2 put, 3 gc / yield, 4 put followed by a relative get
 	LenMode int
 	Len     int
 	Rel     int
@@ -127,6 +128,8 @@ func (op vfC42IOp) String() string {
 		return fmt.Sprintf("mut #%d %s(%d,%d)", op.Slot, vfC42IMutNames[op.Mut], op.A, op.B)
 	case 2:
 		return fmt.Sprintf("put #%d", op.Slot)
+	case 4:
+		return fmt.Sprintf("put #%d+get rel%d", op.Slot, op.Rel)
 	default:
 		return "gc"
 	}
@@ -134,39 +137,44 @@ func (op vfC42IOp) String() string {
 
 func vfC42IDrawOp(rt *rapid.T) vfC42IOp {
 	var op vfC42IOp
-	r := rapid.IntRange(0, 99).Draw(rt, "kind")
+	r := rapid.IntRange(0, 199).Draw(rt, "kind")
 	switch {
-	case r < 36:
+	case r < 60:
 		op.Kind = 0
-	case r < 66:
+	case r < 116:
 		op.Kind = 1
-	case r < 97:
+	case r < 160:
 		op.Kind = 2
+	case r < 199:
+		op.Kind = 4 // put immediately followed by a get relative to the capacity just put
 	default:
-		op.Kind = 3
+		op.Kind = 3 // runtime.GC (sequential) / Gosched (concurrent): rare, a GC cycle costs as much as many cases
 	}
 	op.Slot = rapid.IntRange(0, 7).Draw(rt, "slot")
 	switch op.Kind {
-	case 0:
-		if rapid.IntRange(0, 2).Draw(rt, "rel") == 0 {
+	case 0, 4:
+		if op.Kind == 4 || rapid.IntRange(0, 1).Draw(rt, "rel") == 0 {
 			op.LenMode = 1
-			op.Rel = rapid.IntRange(0, 8).Draw(rt, "relsel")
+			// 0,1,3,4 can be served by the buffer just put (3,4 only if its capacity is a power of two); the rest must not be
+			op.Rel = rapid.SampledFrom([]int{0, 0, 1, 1, 1, 2, 3, 4, 4, 5, 6, 7, 8}).Draw(rt, "relsel")
 			break
 		}
-		switch rapid.IntRange(0, 9).Draw(rt, "lenkind") {
-		case 0:
-			op.Len = rapid.SampledFrom([]int{0, 0, -1, -5}).Draw(rt, "len0")
-		case 1:
-			op.Len = rapid.SampledFrom([]int{vfC42IMax - 1, vfC42IMax, vfC42IMax + 1, 5000, 2 * vfC42IMax}).Draw(rt, "lenmax")
-		case 2:
-			op.Len = max((1<<rapid.IntRange(0, 12).Draw(rt, "k"))+rapid.IntRange(-1, 1).Draw(rt, "pm"), 1)
-		case 3:
-			op.Len = rapid.IntRange(1, 70).Draw(rt, "small")
-		default:
+		// rapid's integer generators favour small values: cheap common kinds first, large allocations last
+		r := rapid.IntRange(0, 63).Draw(rt, "lenkind")
+		switch {
+		case r < 24:
 			op.Len = max((1<<rapid.IntRange(0, 7).Draw(rt, "ksmall"))+rapid.IntRange(-1, 1).Draw(rt, "pm"), 1)
+		case r < 44:
+			op.Len = rapid.IntRange(1, 70).Draw(rt, "small")
+		case r < 52:
+			op.Len = rapid.SampledFrom([]int{0, 0, -1, -5}).Draw(rt, "len0")
+		case r < 59:
+			op.Len = max((1<<rapid.IntRange(0, 12).Draw(rt, "k"))+rapid.IntRange(-1, 1).Draw(rt, "pm"), 1)
+		default:
+			op.Len = rapid.SampledFrom([]int{vfC42IMax - 1, vfC42IMax, vfC42IMax + 1, 5000, 2 * vfC42IMax}).Draw(rt, "lenmax")
 		}
 	case 1:
-		op.Mut = rapid.IntRange(0, 8).Draw(rt, "mut")
+		op.Mut = rapid.SampledFrom([]int{0, 0, 0, 0, 1, 1, 2, 2, 3, 3, 4, 5, 5, 6, 6, 7, 8, 8}).Draw(rt, "mut")
 		op.A = rapid.IntRange(0, 1<<20).Draw(rt, "a")
 		op.B = rapid.IntRange(0, 1<<20).Draw(rt, "b")
 	}
@@ -183,7 +191,26 @@ func vfC42IRender(ops []vfC42IOp) string {
 
 type vfC42IStats struct {
 	gets, reused, crossClass, nonPow2Reuse, exactLen, hiddenPuts, staleAfterHidden, grows, oversizedPuts, zeroCapPuts, gcs int
-	trace                                                                                                                      []string
+	trace                                                                                                                      []vfC42INote
+}
+
+type vfC42INote struct {
+	format string
+	a      [4]int
+	n      int
+	flag   bool
+}
+
+func (st *vfC42IStats) traceString() string {
+	parts := make([]string, len(st.trace))
+	for i, n := range st.trace {
+		args := make([]any, 0, 5)
+		for j := 0; j < n.n; j++ {
+			args = append(args, n.a[j])
+		}
+		parts[i] = fmt.Sprintf(n.format, args...) + fmt.Sprintf(" %v", n.flag)
+	}
+	return strings.Join(parts, "; ")
 }
 
 type vfC42IActor struct {
@@ -193,9 +220,12 @@ type vfC42IActor struct {
 	concurrent bool
 }
 
-func (a *vfC42IActor) note(format string, args ...any) {
-	if len(a.st.trace) < 80 {
-		a.st.trace = append(a.st.trace, fmt.Sprintf(format, args...))
+// note records a trace entry without formatting it (rendered only when a violation is reported).
+func (a *vfC42IActor) note(flag bool, format string, args ...int) {
+	if len(a.st.trace) < 100 {
+		n := vfC42INote{format: format, n: len(args), flag: flag}
+		copy(n.a[:], args)
+		a.st.trace = append(a.st.trace, n)
 	}
 }
 
@@ -238,7 +268,8 @@ func (a *vfC42IActor) resolveLen(op vfC42IOp) int {
 	return n
 }
 
-var vfC42ICaps = []int{0, 1, 2, 3, 5, 6, 7, 12, 17, 100, 1000, 1025, vfC42IMax - 1, vfC42IMax, vfC42IMax + 1, 5000}
+var vfC42ICaps = []int{0, 1, 2, 3, 5, 6, 7, 8, 12, 17, 33, 100, 255}
+var vfC42ICapsBig = []int{1000, 1025, vfC42IMax - 1, vfC42IMax, vfC42IMax + 1, 5000}
 
 func (a *vfC42IActor) step(i int, op vfC42IOp) string {
 	switch op.Kind {
@@ -256,8 +287,10 @@ func (a *vfC42IActor) step(i int, op vfC42IOp) string {
 		a.mutate(op)
 		return ""
 	default:
-		a.put(op.Slot)
-		return ""
+		if !a.put(op.Slot) || op.Kind != 4 {
+			return ""
+		}
+		return a.get(i, a.resolveLen(op))
 	}
 }
 
@@ -278,7 +311,7 @@ func (a *vfC42IActor) get(i, n int) string {
 			a.st.nonPow2Reuse++
 		}
 	}
-	a.note("get %d -> len %d cap %d reused=%v", n, len(ib.B), cap(ib.B), reused)
+	a.note(reused, "get %d -> len %d cap %d reused", n, len(ib.B), cap(ib.B))
 	origin := "fresh"
 	if reused {
 		origin = fmt.Sprintf("previously put with cap %d after being obtained for %d", before.putCap, before.prevReq)
@@ -335,7 +368,10 @@ func (a *vfC42IActor) mutate(op vfC42IOp) {
 			ib.B[j] = vfC42IMarker
 		}
 	case 3:
-		nc := vfC42ICaps[op.A%len(vfC42ICaps)]
+		nc := vfC42ICaps[(op.A/12)%len(vfC42ICaps)]
+		if op.A%12 == 11 { // large allocations: 1/12 of the draws
+			nc = vfC42ICapsBig[(op.A/12)%len(vfC42ICapsBig)]
+		}
 		nb := make([]queue.Item, nc)
 		fillTo := op.B % (nc + 1)
 		if op.B&(1<<19) != 0 {
@@ -366,12 +402,12 @@ func (a *vfC42IActor) mutate(op vfC42IOp) {
 			a.st.grows++
 		}
 	}
-	a.note("mut #%d %s -> len %d cap %d", op.Slot%len(a.held), vfC42IMutNames[op.Mut], len(ib.B), cap(ib.B))
+	a.note(false, "mut #%d "+vfC42IMutNames[op.Mut]+" -> len %d cap %d grew", op.Slot%len(a.held), len(ib.B), cap(ib.B))
 }
 
-func (a *vfC42IActor) put(slot int) {
+func (a *vfC42IActor) put(slot int) bool {
 	if len(a.held) == 0 {
-		return
+		return false
 	}
 	k := slot % len(a.held)
 	ib := a.held[k]
@@ -395,9 +431,10 @@ func (a *vfC42IActor) put(slot int) {
 		a.st.hiddenPuts++
 	}
 	a.lastPutCap = c
-	a.note("put #%d len %d cap %d hiddenDirty=%v", k, len(ib.B), c, hidden)
+	a.note(hidden, "put #%d len %d cap %d hiddenDirty", k, len(ib.B), c)
 	vfC42ITracker.onPut(ib, c, hidden)
 	putItemBuf(ib)
+	return true
 }
 
 func vfC42IDrain() {
@@ -442,6 +479,12 @@ func vfC42ILabels(c *vfCase, st vfC42IStats) {
 }
 
 func TestVF_C42_ItemBuf(t *testing.T) {
+	// The cases allocate large short-lived buffers; with the default pacing the heap stays tiny, every large buffer
+	// triggers a GC cycle and the scavenger returns its pages to the OS, so that page faults dominate the run time.
+	// Collect only when the heap reaches a fixed limit instead; explicit runtime.GC() ops (drawn) still exercise the
+	// pools across collections.
+	defer debug.SetGCPercent(debug.SetGCPercent(-1))
+	defer debug.SetMemoryLimit(debug.SetMemoryLimit(128 << 20))
 	opGen := rapid.Custom(vfC42IDrawOp)
 	vfCheck(t, "C42", func(rt *rapid.T, c *vfCase) string {
 		ops := rapid.SliceOfN(opGen, 4, 40).Draw(rt, "ops")
@@ -465,13 +508,19 @@ func TestVF_C42_ItemBuf(t *testing.T) {
 		}
 		vfC42ILabels(c, a.st)
 		if verdict != "" {
-			verdict += "\ntrace: " + strings.Join(a.st.trace, "; ")
+			verdict += "\ntrace: " + a.st.traceString()
 		}
 		return verdict
 	})
 }
 
 func TestVF_C42_ItemBufConcurrent(t *testing.T) {
+	// The cases allocate large short-lived buffers; with the default pacing the heap stays tiny, every large buffer
+	// triggers a GC cycle and the scavenger returns its pages to the OS, so that page faults dominate the run time.
+	// Collect only when the heap reaches a fixed limit instead; explicit runtime.GC() ops (drawn) still exercise the
+	// pools across collections.
+	defer debug.SetGCPercent(debug.SetGCPercent(-1))
+	defer debug.SetMemoryLimit(debug.SetMemoryLimit(128 << 20))
 	opGen := rapid.Custom(vfC42IDrawOp)
 	vfCheck(t, "C42", func(rt *rapid.T, c *vfCase) string {
 		g := rapid.IntRange(2, 4).Draw(rt, "goroutines")
@@ -496,7 +545,7 @@ func TestVF_C42_ItemBufConcurrent(t *testing.T) {
 				<-start
 				for i, op := range scripts[gi] {
 					if v := a.step(i, op); v != "" {
-						verdicts[gi] = fmt.Sprintf("goroutine %d: %s\ntrace: %s", gi, v, strings.Join(a.st.trace, "; "))
+						verdicts[gi] = fmt.Sprintf("goroutine %d: %s\ntrace: %s", gi, v, a.st.traceString())
 						break
 					}
 				}
